@@ -1,7 +1,9 @@
 (* C13 — property theorems.  Only statements, each closed by [exact], each followed by
    Print Assumptions. *)
-From Coq Require Import ZArith List Bool.
-From Centro Require Import Base.VecC13 Proofs.VecC13Proofs Model.MeasureC13 Proofs.MeasureC13Proofs Model.EllipseCoordsC13 Proofs.EllipseC13Proofs.
+From Coq Require Import ZArith QArith List Bool.
+From Centro Require Import Base.VecC13 Proofs.VecC13Proofs Model.MeasureC13 Proofs.MeasureC13Proofs Model.EllipseCoordsC13 Proofs.EllipseC13Proofs
+  Proofs.PadC13Proofs Proofs.TranslateC13Proofs Proofs.EllipseRowsC13.
+From Centro Require Model.Hull Proofs.HullBatch Model.HullAreaC13 Proofs.HullAreaC13Proofs Model.MedianC18 Spec.SpecC18 Proofs.MedianC13Proofs Model.IndexesC18 Proofs.IndexesC18Proofs.
 Import ListNotations.
 Open Scope Z_scope.
 
@@ -165,11 +167,24 @@ Proof. exact euler_request. Qed.
 Print Assumptions C13_euler_request.
 
 (* ---- ellipse moments (m00, centre, a, b, c over Q) ----
-   ell_c is the per-object, coordinate-level model; the as-written model
-   Model.MeasureC13.ellipse_moments (bincount over all labels, centring through ic[labels], gather)
-   is compared with it by exact equality on every generated object and with the implementation.
-   Not proved: ellipse_moments im idxs = EllRows (ells im idxs) inside the domain (missing lemma:
-   nth of the zipped bincount rows, "ellipse_rows_nth"). *)
+   ell_c is the per-object, coordinate-level model; ellipse_moments is the as-written model
+   (bincount over all labels, centring through ic[labels], zipped rows, gather). *)
+
+(* ellipse_rows_nth: whenever the as-written model returns rows (the code does not raise) they are the
+   coordinate-level rows of the requested objects ... *)
+Theorem C13_ellipse_rows_nth : forall im idxs r,
+  nonneg_img im -> (forall l, In l idxs -> 0 < l) ->
+  ellipse_moments im idxs = EllRows r -> nzp im <> [] -> r = ells im idxs.
+Proof. exact ellipse_rows_nth. Qed.
+Print Assumptions C13_ellipse_rows_nth.
+
+(* ... and it returns rows exactly inside the domain "every requested label <= largest label" *)
+Theorem C13_ellipse_rows_defined : forall im idxs,
+  nonneg_img im -> idxs <> [] -> nzp im <> [] ->
+  (forall l, In l idxs -> 0 < l <= maxl (map p_v (nzp im))) ->
+  ellipse_moments im idxs = EllRows (ells im idxs).
+Proof. exact ellipse_rows_defined. Qed.
+Print Assumptions C13_ellipse_rows_defined.
 
 (* (c) translation: the central moments a, b, c and m00 are unchanged, the centre moves along *)
 Theorem C13_ellipse_translate : forall dy dx cs,
@@ -187,3 +202,82 @@ Theorem C13_ellipse_relabel : forall f im idxs,
   injective f -> ells (relabel f im) (map f idxs) = ells im idxs.
 Proof. exact ells_relabel. Qed.
 Print Assumptions C13_ellipse_relabel.
+
+(* ---- (c) translation by zero padding (np.pad) for the pattern/quad measurements ---- *)
+
+Theorem C13_perimeters_translate : forall t b lf r im idxs,
+  nonzero_list idxs -> perimeters (pad t b lf r im) idxs = perimeters im idxs.
+Proof. exact perimeters_translate. Qed.
+Print Assumptions C13_perimeters_translate.
+
+Theorem C13_skeleton_length_translate : forall t b lf r im idxs,
+  nonneg_img im -> (forall i, In i idxs -> 0 < i) ->
+  skeleton_length (pad t b lf r im) idxs = skeleton_length im idxs.
+Proof. exact skeleton_length_translate. Qed.
+Print Assumptions C13_skeleton_length_translate.
+
+Theorem C13_euler_translate : forall t b lf r im idxs,
+  rect im -> nonzero_list idxs -> euler4 (pad t b lf r im) idxs = euler4 im idxs.
+Proof. exact euler_translate. Qed.
+Print Assumptions C13_euler_translate.
+
+(* the facts about np.pad they rest on *)
+Theorem C13_pad_reads : forall t b lf r im y x,
+  g (pad t b lf r im) (y + Z.of_nat t) (x + Z.of_nat lf) = g im y x.
+Proof. exact pad_g. Qed.
+Print Assumptions C13_pad_reads.
+
+Theorem C13_pad_own_coords : forall t b lf r im l,
+  l <> 0 -> own_coords (pad t b lf r im) l = map (shift (Z.of_nat t) (Z.of_nat lf)) (own_coords im l).
+Proof. exact pad_own_coords. Qed.
+Print Assumptions C13_pad_own_coords.
+
+(* ---- median_of_labels: b18's as-written model (Model/MedianC18.v; include mask, anti-index table,
+   lexsort, bincount(minlength), cumulative offsets) through median_of_labels_correct ---- *)
+
+Theorem C13_median_independent : forall (image : list Z) labels idxs image' labels' idxs' k k' l,
+  length image = length labels -> length image' = length labels' -> NoDup idxs -> NoDup idxs' ->
+  SpecC18.sel image labels l = SpecC18.sel image' labels' l ->
+  nth_error idxs k = Some l -> nth_error idxs' k' = Some l ->
+  nth_error (MedianC18.median_of_labels image labels idxs) k =
+  nth_error (MedianC18.median_of_labels image' labels' idxs') k'.
+Proof. exact MedianC13Proofs.median_independent. Qed.
+Print Assumptions C13_median_independent.
+
+Theorem C13_median_relabel : forall (f : nat -> nat) (image : list Z) labels idxs,
+  (forall a b, f a = f b -> a = b) -> length image = length labels -> NoDup idxs ->
+  MedianC18.median_of_labels image (map f labels) (map f idxs) = MedianC18.median_of_labels image labels idxs.
+Proof. exact MedianC13Proofs.median_relabel. Qed.
+Print Assumptions C13_median_relabel.
+
+Theorem C13_median_request : forall (image : list Z) labels idxs,
+  length image = length labels -> NoDup idxs ->
+  MedianC18.median_of_labels image labels idxs =
+  flat_map (fun l => MedianC18.median_of_labels image labels [l]) idxs.
+Proof. exact MedianC13Proofs.median_request. Qed.
+Print Assumptions C13_median_request.
+
+(* ---- the Indexes expansion used by feret_diameter (b18: Model/IndexesC18.v) ---- *)
+Theorem C13_indexes_rowmajor : forall counts : list (list nat),
+  counts <> [] -> (forall row, In row counts -> length row = length (hd [] counts)) ->
+  IndexesC18.indexes counts = SpecC18.indexes_ref counts.
+Proof. exact IndexesC18Proofs.indexes_rowmajor. Qed.
+Print Assumptions C13_indexes_rowmajor.
+
+(* ---- calculate_convex_hull_areas (and, divided into the area, calculate_solidity) ----
+   HullAreaC13.hull_area_obj is the value of one object from its own hull vertices (mean point, +1
+   fix-ups, triangle fan, modulo wrap), compared with the implementation on every generated object.
+   Composition with C02's model of convex_hull_ijv: position r of the batch is that function of the rows
+   of label indexes[r] only -- and of the kernel's buffer slack.  _partial: that the slack is irrelevant
+   (C02 guard_irrelevant) is only proved finitely in C02, and the vectorised bookkeeping of the area
+   loop itself (index_of_label, cumsum(counts_nd), modulo_mask) is tied by correspondence, not proved.
+   minimum_enclosing_circle and feret_diameter have no composed model yet. *)
+Theorem C13_hull_area_own_rows_partial : forall ijv indexes r,
+  NoDup indexes -> (r < length indexes)%nat ->
+  exists slack,
+    nth r (HullAreaC13.hull_areas_rows (fst (Hull.convex_hull_ijv ijv indexes))) (0, 0%Q) =
+    HullAreaC13.hull_area_obj
+      (Hull.hull_label (Hull.zmax_list (map Hull.r_i (Hull.lexsort ijv)))
+                       (map Hull.r_pt (HullBatch.sel (nth r indexes 0) (Hull.lexsort ijv))) slack).
+Proof. exact HullAreaC13Proofs.hull_area_own_rows. Qed.
+Print Assumptions C13_hull_area_own_rows_partial.
